@@ -179,20 +179,38 @@ def check_stream(ctx, ift, rec, tmpdir, with_h5):
         mm2, vv2 = rl.sample_stat(None)
         if not (close(mm2.asnumpy()[0], float(mean)) and close(vv2.asnumpy()[1], 4 * float(var))):
             bad.append("ResidualSampleList.sample_stat %s %s" % (mm2.asnumpy(), vv2.asnumpy()))
-        if with_h5:
-            import h5py
-            fn = os.path.join(tmpdir, "s%d.h5" % abs(hash(tuple(xs))))
-            sl.save_to_hdf5(fn, op=op, samples=True, mean=True, std=True, overwrite=True)
-            with h5py.File(fn, "r") as f:
-                hm = np.array(f["stats"]["mean"])
-                hs = np.array(f["stats"]["standard deviation"])
-                ns = len(f["samples"].keys())
-                s0 = np.array(f["samples"]["0"])
-            os.remove(fn)
-            if not (close(hm[0], 2 * float(mean)) and close(hs[0] ** 2, 4 * float(var)) and close(hs[1] ** 2, 16 * float(var))):
-                bad.append("HDF5 export stats %s %s" % (hm, hs))
-            if ns != n or not close(s0[0], 2. * xs[0]):
-                bad.append("HDF5 export samples: %d groups, first %s" % (ns, s0))
+    if with_h5:
+        import h5py
+        fn = os.path.join(tmpdir, "s%d.h5" % abs(hash(tuple(xs))))
+        # every combination of what can be exported (the branches of save_to_hdf5 differ), with and without an operator
+        for use_op in (True, False):
+            fac = 2. if use_op else 1.
+            for flags in ((1, 1, 1), (0, 1, 0), (0, 0, 1), (1, 1, 0), (1, 0, 1), (0, 1, 1), (1, 0, 0)):
+                wsamp, wmean, wstd = flags
+                if wstd and n < 2:
+                    continue
+                tag = "HDF5 export (op=%s, samples=%d, mean=%d, std=%d)" % (use_op, wsamp, wmean, wstd)
+                try:
+                    sl.save_to_hdf5(fn, op=op if use_op else None, samples=bool(wsamp), mean=bool(wmean), std=bool(wstd), overwrite=True)
+                    with h5py.File(fn, "r") as f:
+                        hm = np.array(f["stats"]["mean"]) if wmean else None
+                        hs = np.array(f["stats"]["standard deviation"]) if wstd else None
+                        ns = len(f["samples"].keys()) if wsamp else None
+                        s0 = np.array(f["samples"]["0"]) if wsamp else None
+                        extra = [k for k, w in (("samples", wsamp),) if not w and k in f] + \
+                                [k for k, w in (("mean", wmean), ("standard deviation", wstd)) if not w and "stats" in f and k in f["stats"]]
+                    os.remove(fn)
+                except Exception as e:
+                    bad.append("%s raised %s: %s" % (tag, type(e).__name__, str(e)[:100]))
+                    continue
+                if wmean and not (close(hm[0], fac * float(mean)) and close(hm[1], 2 * fac * float(mean))):
+                    bad.append("%s: mean %s, expected %s" % (tag, hm, fac * mean))
+                if wstd and not (close(hs[0] ** 2, fac ** 2 * float(var)) and close(hs[1] ** 2, 4 * fac ** 2 * float(var))):
+                    bad.append("%s: standard deviation %s, expected the root of %s" % (tag, hs, fac ** 2 * var))
+                if wsamp and (ns != n or not close(s0[0], fac * xs[0])):
+                    bad.append("%s: %d sample groups, first %s" % (tag, ns, s0))
+                if extra:
+                    bad.append("%s: contains %s which was not requested" % (tag, extra))
     for b in bad:
         ctx.violation(dict(kind="statistics", which=b.split(" ")[0]), "stream %s: %s" % (xs, b), replay=dict(stream=rec))
     return not bad
@@ -214,7 +232,12 @@ def run(ctx):
     s = ctx.tlc("SampleListFS", CFG % (3 if q else 4, 2 if q else 4, 5, "TRUE", "TRUE") + "INVARIANT Faithful\nINVARIANT Emit\nCHECK_DEADLOCK FALSE\n",
                 label="simulate %d histories of 5 ops" % nsim, workers=1, simulate=nsim, depth=6, seed=ctx.seed + 26, timeout=1700)
     e2 = ctx.tlc("SampleListFS", CFG % (2, 2, 2, "TRUE", "TRUE") + "INVARIANT Faithful\nINVARIANT Emit\nCHECK_DEADLOCK FALSE\n", label="emit all histories of 2 ops", workers=1)
+    # every history save, save, load under one base name with overwriting (a shorter list over a longer one, any task counts, both kinds)
+    e3 = ctx.tlc("SampleListFS", CFG % (3 if q else 4, 2 if q else 3, 3, "TRUE", "TRUE") + "INVARIANT Faithful\nINVARIANT Emit\nCONSTRAINT OneBaseOverwrite\nCHECK_DEADLOCK FALSE\n",
+                 label="emit all overwrite histories of 3 ops", workers=1, timeout=1700)
     hists = [d["hist"] for d in s.emitted] + [d["hist"] for d in e2.emitted if any(x["op"] == "load" for x in d["hist"])]
+    hists += [d["hist"] for d in e3.emitted if d["hist"][-1]["op"] == "load" and d["hist"][1]["op"] == "save"
+              and (not q or d["hist"][1]["n"] < d["hist"][0]["n"])]
     if len(hists) < 50:
         raise tlcmod.MachineryError("too few histories emitted (%d)" % len(hists))
     root = os.path.join(tlcmod.RUNROOT, "C26-%d" % os.getpid())
